@@ -97,8 +97,22 @@ def r_hatches(ctx: Ctx, rule: str):
         # a non-empty message is always written: the only way to skip the write is the emptiness test of the message
         g = ctx.an.cfg(f)
         tests = ctx.nodes(f, lambda n: n.op == "test")
-        okt = all(isinstance(t.ast, ast.Name) and t.ast.id == f.param_names()[1] for t in tests)
-        rep.ob(rule, "a non-empty message is never dropped", okt and bool(writes), func=f, construct=tests[0] if tests else "unconditional write")
+        mp_ = f.param_names()[1]
+
+        def truthy_message(a: Node, b: Node, lab: Label) -> bool:
+            """edges possible when the message is non-empty: `if message` true, `if not message` false"""
+            if lab[0] not in NORMAL_KINDS:
+                return False
+            if a.op == "test" and lab[0] in ("T", "F"):
+                e, neg = a.ast, False
+                while isinstance(e, ast.UnaryOp) and isinstance(e.op, ast.Not):
+                    e, neg = e.operand, not neg
+                if isinstance(e, ast.Name) and e.id == mp_:
+                    return (lab[0] == "T") != neg
+            return True
+
+        dropped = g.exit in reach([g.entry], truthy_message, avoid=set(writes))
+        rep.ob(rule, "a non-empty message is never dropped", bool(writes) and not dropped, func=f, construct=tests[0] if tests else "unconditional write")
     # exit
     f = cp.methods.get("exit")
     if f is not None:
@@ -244,8 +258,14 @@ def r_listen_loop(ctx: Ctx, rule: str):
         ok = False
         if isinstance(src, ast.Name):
             vals = [h[1] for h in ctx.an.scope(f).defs.get(src.id, []) if h[0] == "assign"]
-            ok = bool(vals) and all(any(isinstance(x, ast.Call) and isinstance(x.func, ast.Attribute) and x.func.attr == "getvalue" and ctx.eff.paths(f).of(x.func.value) == "self._response_buffer"
-                                        for x in ast.walk(v)) for v in vals)
+
+            def from_buffer(v: ast.AST) -> bool:
+                # directly, or through a helper (spliced into listen) that returns the buffer's content
+                fr, fenv, leaf = ctx.vals.trace(w.func, w.env, v)
+                return any(isinstance(x, ast.Call) and isinstance(x.func, ast.Attribute) and x.func.attr == "getvalue"
+                           and ctx.eff.rebase(ctx.eff.paths(fr).of(x.func.value) or "", fr, fenv) == "self._response_buffer" for x in ast.walk(leaf))
+
+            ok = bool(vals) and all(from_buffer(v) for v in vals)
         elif src is not None:
             ok = any(isinstance(x, ast.Call) and isinstance(x.func, ast.Attribute) and x.func.attr == "getvalue" for x in ast.walk(src))
         rep.ob(rule, "the reply sent is the content of this session's response buffer", ok, node=w)
@@ -268,24 +288,26 @@ def r_containment(ctx: Ctx, rule: str):
     rep.floor(rule, "parse_args call in _parse_command", len(parses), 1)
     need = {"argparse.ArgumentError": "ArgumentError", "exceptions.HelpRequested": "HelpRequested", "exceptions.ParserError": "ParserError"}
     for p in parses:
-        tries = enclosing_tries(f, p.stmt)
+        copies = [n for n in g.nodes if n.ast is p.ast and n.op == "call" and n.pred]
         for cls, short in need.items():
-            caught_by = None
-            for t in tries:
-                for h in t.handlers:
-                    types = ctx.hier.resolve(f.module, h.type)
-                    if any(ctx.hier.catches(ty, (cls, False)) == "yes" for ty in types):
-                        caught_by = h
-                        break
-                if caught_by:
-                    break
-            rep.ob(rule, f"{short} raised while parsing a line is caught in _parse_command", caught_by is not None, node=p, detail="" if caught_by else f"no handler for {short} around parse_args")
-            if caught_by is not None:
-                hn = [n for n in g.nodes if n.op == "handler" and n.ast is caught_by]
-                falls = all(g.exit in reach([h], lambda a, b, lab: lab[0] in NORMAL_KINDS) and not any(x.op == "raise_exit" for x in reach([h], lambda a, b, lab: True)) for h in hn if h.pred) if hn else False
-                rep.ob(rule, f"the handler for {short} answers and returns (it does not re-raise)", falls if any(h.pred for h in hn) else None, func=f, construct=caught_by)
+            # where does this class go when parse_args raises it (in _parse_command or in a helper spliced into it)?
+            tgts = [s2 for c_ in copies for s2, lab in c_.succ if lab == ("x", (cls, True))]
+            hn = [t for t in tgts if t.op in ("handler", "suppressed")]
+            caught = bool(tgts) and len(hn) == len(tgts)
+            rep.ob(rule, f"{short} raised while parsing a line is caught in _parse_command", caught, node=p, detail="" if caught else f"no handler for {short} around parse_args")
+            if caught:
+                def body_raises(h: Node) -> bool:
+                    """does a step of this handler's own body have an exceptional way out?"""
+                    if h.op != "handler":
+                        return False
+                    inside = {id(x) for st_ in h.ast.body for x in ast.walk(st_)}
+                    body = [m for m in reach([h], lambda a, b, lab: lab[0] in NORMAL_KINDS) if m.func is h.func and m.ast is not None and id(m.ast) in inside]
+                    return any(lab[0] in ("x",) for m in body for _s, lab in m.succ) or any(isinstance(x, ast.Raise) for st_ in h.ast.body for x in ast.walk(st_))
+
+                falls = all(g.exit in reach([h], lambda a, b, lab: lab[0] in NORMAL_KINDS) and not body_raises(h) for h in hn)
+                rep.ob(rule, f"the handler for {short} answers and returns (it does not re-raise)", falls, func=f, construct=hn[0])
     for p in parses:
-        recv = ctx.eff.paths(f).of(p.ast.func.value)
+        recv = ctx.path_at(p, p.ast.func.value)
         rep.ob(rule, "the line is parsed by this session's ControlParser", recv == "self._parser", node=p, detail=str(recv))
     # (ii) the type wrapper
     outer = ctx.prog.functions.get(f"{PARSER_MOD}._get_arg_type_wrapper")
@@ -333,8 +355,9 @@ def r_containment(ctx: Ctx, rule: str):
     execs = ctx.distinct_sites(ctx.nodes(f, lambda n: ctx.is_call_to(n, "_exec_method_and_respond", "_exec_property_and_respond")))
     rep.floor(rule, "dispatch calls in _parse_command", len(execs), 2)
     pnodes = [n for n in g.nodes if any(n.ast is p.ast for p in parses) and n.op == "call"]
+    unparsed = reached_without(ctx, f, pnodes, [x for x in g.nodes if any(x.ast is e.ast and x.op == e.op for e in execs)])
     for e in execs:
-        rep.ob(rule, "a pool member is invoked only after the line was parsed successfully", dominated_by_completion(g, pnodes, e), node=e)
+        rep.ob(rule, "a pool member is invoked only after the line was parsed successfully", not any(x.ast is e.ast for x in unparsed), node=e)
     roe = ctx.prog.functions.get("internals.helpers.return_or_exception")
     if roe is None:
         raise AnalysisError("anchor: internals.helpers.return_or_exception missing")
@@ -342,6 +365,79 @@ def r_containment(ctx: Ctx, rule: str):
     for x in [x for x in rg.raise_exits.values() if x.pred and x.kind == "x"]:
         rep.ob(rule, "no Exception of the called member escapes return_or_exception", False, func=roe, construct=f"raise exit {x.tok[0].rpartition('.')[2]}")
     rep.ob(rule, "return_or_exception contains every Exception of the member it runs", not [x for x in rg.raise_exits.values() if x.pred and x.kind == "x"], func=roe, construct="raising exits (cancellation aside)")
+
+
+def reached_without(ctx: Ctx, f: FuncInfo, musts: List[Node], targets: List[Node]) -> List[Node]:
+    """Targets that can be reached on a path on which none of `musts` completed normally.  Path-sensitive in one respect:
+    whether a local is None - so that `x = helper(); if x is None: return` is understood when the helper (spliced in)
+    returns None exactly on its failure paths."""
+    NOT_NONE = ("vars", "dict", "list", "set", "tuple", "str", "int", "len", "repr", "sorted", "bool", "float", "frozenset")
+
+    def status(e: Optional[ast.AST]) -> str:
+        if e is None or (isinstance(e, ast.Constant) and e.value is None):
+            return "N"
+        if isinstance(e, (ast.Constant, ast.Dict, ast.List, ast.Tuple, ast.Set, ast.JoinedStr, ast.ListComp, ast.DictComp, ast.SetComp)):
+            return "V"
+        if isinstance(e, ast.Call) and isinstance(e.func, ast.Name) and e.func.id in NOT_NONE:
+            return "V"
+        return "?"
+
+    def key(env, name: str) -> str:
+        return f"{id(env) if env is not None else 0}:{name}"
+
+    def test_none(e: ast.AST, n: Node, st: Dict[str, str]) -> Optional[bool]:
+        """truth of the test if decided by None-ness"""
+        if isinstance(e, ast.UnaryOp) and isinstance(e.op, ast.Not):
+            v = test_none(e.operand, n, st)
+            return None if v is None else not v
+        if isinstance(e, ast.Name):
+            s_ = st.get(key(n.env, e.id))
+            return False if s_ == "N" else None
+        if isinstance(e, ast.Compare) and len(e.ops) == 1 and isinstance(e.left, ast.Name) and isinstance(e.comparators[0], ast.Constant) and e.comparators[0].value is None:
+            s_ = st.get(key(n.env, e.left.id))
+            if s_ in ("N", "V"):
+                isnone = s_ == "N"
+                if isinstance(e.ops[0], (ast.Is, ast.Eq)):
+                    return isnone
+                if isinstance(e.ops[0], (ast.IsNot, ast.NotEq)):
+                    return not isnone
+        return None
+
+    mustset = set(musts)
+
+    def transfer(ai: AbsInt, n: Node, lab: Label, state):
+        done, items = state
+        st = dict(items)
+        normal = lab[0] in NORMAL_KINDS
+        if n in mustset and normal:
+            done = True
+        if normal and n.op == "ret_inl" and n.env is not None:
+            st[f"ret:{ctx.an.env_site.get(id(n.env), 0)}"] = status(n.ast.value)
+        elif normal and n.op == "assign" and isinstance(n.ast, (ast.Assign, ast.AnnAssign)) and getattr(n.ast, "value", None) is not None:
+            v = strip_cast(n.ast.value)
+            if isinstance(v, ast.Await):
+                v = strip_cast(v.value)
+            tg = n.ast.targets if isinstance(n.ast, ast.Assign) else [n.ast.target]
+            for t in tg:
+                if isinstance(t, ast.Name):
+                    if isinstance(v, ast.Call) and id(v) in ctx.an.spliced_at:
+                        st[key(n.env, t.id)] = st.get(f"ret:{id(v)}", "?")
+                    else:
+                        st[key(n.env, t.id)] = status(v) if not isinstance(v, ast.Name) else st.get(key(n.env, v.id), "?")
+        elif n.op == "test" and lab[0] in ("T", "F"):
+            v = test_none(n.ast, n, st)
+            if v is not None and v != (lab[0] == "T"):
+                return []
+        return [(done, frozenset(st.items()))]
+
+    hits: List[Node] = []
+
+    def at_node(ai: AbsInt, n: Node, state):
+        if n in targets and not state[0] and n not in hits:
+            hits.append(n)
+
+    AbsInt(ctx.an, transfer, at_node=at_node).run(f, (False, frozenset()))
+    return hits
 
 
 # ---------------------------------------------------------------------- R18.4
@@ -371,6 +467,7 @@ def r_buffer(ctx: Ctx, rule: str):
     rep.floor(rule, "assignments of the session's parser", len(ps), 2)
     for e in ps:
         v = getattr(e.node.ast, "value", None)
+        v = ctx.vals.resolve(e.node.func, v) if v is not None else None
         fresh = (isinstance(v, ast.Constant) and v.value is None) or (isinstance(v, ast.Call) and ctx.an.scope(e.node.func).callee(v).kind == "ctor" and ctx.an.scope(e.node.func).callee(v).cls is cp)
         rep.ob(rule, "a session's parser is a ControlParser constructed for this session (never one shared with another session)", fresh, node=e.node,
                detail="" if fresh else f"assigned from {ast.unparse(v)[:60] if v is not None else None}")
@@ -452,12 +549,16 @@ def r_dispatch(ctx: Ctx, rule: str):
     sc = ctx.an.scope(f)
     mp = f.param_names()[1]
     kw = f.node.args.kwarg.arg if f.node.args.kwarg else None
-    loops = [n for n in ast.walk(f.node) if isinstance(n, ast.For)]
+    V = ctx.vals
+    # the loop over the method's signature: in this function or in a helper spliced into it
+    heads = ctx.distinct_sites(ctx.nodes(f, lambda n: n.op == "iter" and isinstance(n.ast, ast.For)))
+    loops = [h.ast for h in heads]
     lp = None
-    for l in loops:
-        txt = ast.unparse(l.iter).replace(" ", "")
-        if txt == f"signature({mp}).parameters.values()":
-            lp = l
+    lp_node = None
+    for h in heads:
+        txt = V.canon_at(h.func, h.env, h.ast.iter).replace(" ", "")
+        if txt in (f"signature({mp}).parameters.values()", f"inspect.signature({mp}).parameters.values()"):
+            lp, lp_node = h.ast, h
     rep.ob(rule, "the arguments are arranged by walking the method's own signature in order", lp is not None, func=f, construct=loops[0] if loops else "(no loop)")
     calls = ctx.distinct_sites(ctx.nodes(f, lambda n: ctx.is_call_to(n, "return_or_exception")))
     rep.floor(rule, "return_or_exception call in _exec_method_and_respond", len(calls), 1)
@@ -469,13 +570,24 @@ def r_dispatch(ctx: Ctx, rule: str):
         rep.ob(rule, "the member is called as method(*positional, *var_positional, **remaining keywords)", ok, node=c)
         if ok:
             pos_name, var_name = a[1].value.id, a[2].value.id
+    if lp is not None and pos_name and var_name and lp_node.func is not f:
+        # the lists are filled by a spliced helper and come back as `return positional, variadic`
+        tp, tv = V.tuple_return_var(f, None, pos_name), V.tuple_return_var(f, None, var_name)
+        if tp is not None and tv is not None and tp[0] is lp_node.func and tv[0] is lp_node.func:
+            pos_name, var_name = tp[2], tv[2]
+            # the keyword dictionary under the helper's name for it
+            kw = next((pn for pn, (_c, arg, _e) in tp[1].items() if isinstance(arg, ast.Name) and arg.id == kw), kw)
+        else:
+            pos_name = var_name = None
+            rep.ob(rule, "the positional lists built by the helper are the ones unpacked into the call", None, func=f, construct="(helper result not understood)")
     if lp is not None and pos_name and var_name and isinstance(lp.target, ast.Name):
         pv = lp.target.id
+        lf = lp_node.func
         # classify the branches of the loop body
         facts = {"self": False, "pos": False, "var": False, "pos_kinds": set()}
         for node in ast.walk(lp):
             if isinstance(node, ast.If):
-                cond = ast.unparse(node.test).replace(" ", "")
+                cond = V.canon(lf, node.test).replace(" ", "")
                 body = " ".join(ast.unparse(s) for s in node.body).replace(" ", "")
                 if cond in (f"{pv}.name=='self'", f"'self'=={pv}.name"):
                     facts["self"] = body == f"{pos_name}.append(self._pool)"
@@ -513,7 +625,7 @@ def r_reply_forms(ctx: Ctx, rule: str):
                 parents[id(ch)] = node
         for c in ctx.distinct_sites(ctx.nodes(f, lambda n: ctx.is_call_to(n, "return_or_exception"))):
             n += 1
-            first = c.ast.args[0] if c.ast.args else None
+            first = ctx.vals.resolve(c.func, c.ast.args[0]) if c.ast.args else None
             is_getter = isinstance(first, ast.Attribute) and first.attr == "fget"
             # find the awaited expression and where it goes
             aw = parents.get(id(c.ast))
@@ -631,42 +743,105 @@ def r_return_or_exception(ctx: Ctx, rule: str):
     res = count_paths(ctx.an, f, lambda n: n in ucalls, interproc=False, started=True)
     for k, c in sorted(res.items(), key=str):
         rep.ob(rule, "the member is called exactly once", c == frozenset({1}), func=f, construct=f"exit {k[0]}", detail=str(sorted(c)))
+    V = ctx.vals
+    sc = ctx.an.scope(f)
     for u in ctx.distinct_sites(ucalls):
         c = u.ast
-        fwd = len(c.args) == 1 and isinstance(c.args[0], ast.Starred) and isinstance(c.args[0].value, ast.Name) and c.args[0].value.id == va and \
-            len(c.keywords) == 1 and c.keywords[0].arg is None and isinstance(c.keywords[0].value, ast.Name) and c.keywords[0].value.id == kw
+        fwd = len(c.args) == 1 and isinstance(c.args[0], ast.Starred) and V.is_param(f, c.args[0].value, va) and \
+            len(c.keywords) == 1 and c.keywords[0].arg is None and V.is_param(f, c.keywords[0].value, kw)
         rep.ob(rule, "the member is called with exactly the converted arguments (*args, **kwargs)", fwd, node=u)
 
     def mentions(e: ast.AST) -> bool:
-        return any(isinstance(c, ast.Call) and isinstance(c.func, ast.Name) and c.func.id == "iscoroutinefunction" for c in ast.walk(e))
+        inner = e.operand if isinstance(e, ast.UnaryOp) and isinstance(e.op, ast.Not) else e
+        inner = V.resolve(f, inner)  # also a once-bound flag: must_await = iscoroutinefunction(fn)
+        return any(isinstance(c, ast.Call) and isinstance(c.func, ast.Name) and c.func.id == "iscoroutinefunction" and c.args and V.is_param(f, c.args[0], fn)
+                   for c in ast.walk(inner))
 
     tests = ctx.distinct_sites(ctx.nodes(f, lambda n: n.op == "test" and mentions(n.ast)))
     rep.ob(rule, "coroutine functions are recognised", bool(tests), func=f, construct=tests[0] if tests else "(no iscoroutinefunction test)")
-    for t in tests:
-        neg = isinstance(t.ast, ast.UnaryOp) and isinstance(t.ast.op, ast.Not)
-        lt = "F" if neg else "T"
-        for cp_ in [x for x in g.nodes if x.ast is t.ast and x.op == "test" and x.pred]:
-            region = reach([s for s, lab in cp_.succ if lab[0] == lt], lambda a, b, lab: lab[0] in NORMAL_KINDS)
-            other = reach([s for s, lab in cp_.succ if lab[0] != lt], lambda a, b, lab: lab[0] in NORMAL_KINDS)
-            for u in [u for u in ucalls if u in region and u not in other]:
-                awaited = any(m.op == "await" and strip_cast(m.ast.value) is u.ast for m in g.nodes)
-                rep.ob(rule, "a coroutine method (gather-and-close, flush, until-closed) is awaited before replying", awaited, node=u)
-    # returns
+
+    def is_coro(a: Node, b: Node, lab: Label) -> bool:
+        if lab[0] not in NORMAL_KINDS:
+            return False
+        if a.op == "test" and lab[0] in ("T", "F") and mentions(a.ast):
+            neg = isinstance(a.ast, ast.UnaryOp) and isinstance(a.ast.op, ast.Not)
+            return (lab[0] == "T") != neg
+        return True
+
+    if tests:
+        live = [u for u in ucalls if u in reach([g.entry], is_coro)]
+        for u in ctx.distinct_sites(live):
+            copies = [x for x in live if x.ast is u.ast]
+            awaits = {m for m in g.nodes if m.op == "await" and V.resolve(f, m.ast.value) is u.ast}
+            escaped = g.exit in reach(copies, is_coro, avoid=awaits)
+            rep.ob(rule, "a coroutine method (gather-and-close, flush, until-closed) is awaited before replying", bool(awaits) and not escaped, node=u)
+    # what is returned: the member's result (awaited or not), or - from the handler - the exception it raised
+    excvars = {nm for nm, hows in sc.defs.items() if any(h[0] == "exc" for h in hows)}
     for r in ctx.distinct_sites(ctx.nodes(f, lambda n: n.op == "return")):
         v = r.ast.value
-        inner = strip_cast(v.value) if isinstance(v, ast.Await) else strip_cast(v) if v is not None else None
+        leaves = []
+        for x in (V.alts(f, v) if v is not None else []):
+            if isinstance(x, ast.Await):
+                leaves += V.alts(f, x.value)
+            else:
+                leaves.append(x)
+        exc_leaves = [x for x in leaves if isinstance(x, ast.Name) and x.id in excvars]
+        res_leaves = [x for x in leaves if x not in exc_leaves]
         in_handler = any(True for h in ctx.nodes(f, lambda n: n.op == "handler") if r in reach([h], lambda a, b, lab: lab[0] in NORMAL_KINDS))
-        if in_handler:
-            hs = [h for h in ctx.nodes(f, lambda n: n.op == "handler") if r in reach([h], lambda a, b, lab: lab[0] in NORMAL_KINDS)]
-            ok = isinstance(v, ast.Name) and any(h.ast.name == v.id for h in hs)
-            rep.ob(rule, "the exception raised by the member is what is returned", ok, node=r)
-        else:
-            ok = inner is not None and any(u.ast is inner for u in ucalls)
+        only_handler = in_handler and r not in reach([g.entry], lambda a, b, lab: lab[0] in NORMAL_KINDS)
+        if exc_leaves or only_handler:
+            rep.ob(rule, "the exception raised by the member is what is returned", bool(exc_leaves) and (not only_handler or not res_leaves), node=r)
+        if res_leaves or not in_handler:
+            ok = bool(res_leaves) and all(any(u.ast is x for u in ucalls) for x in res_leaves)
             rep.ob(rule, "the member's own result is returned", ok, node=r)
     hs = ctx.nodes(f, lambda n: n.op == "handler")
     ok = any(any(ctx.hier.canon(t) == EXCEPTION for t in h.types) for h in hs)
     rep.ob(rule, "Exception (and not BaseException / a narrower class) is what is converted into a reply", ok and all(all(ctx.hier.canon(t) == EXCEPTION for t in h.types) for h in hs),
            func=f, construct=hs[0] if hs else "(no handler)")
+
+
+def conjuncts(e: ast.AST) -> List[ast.AST]:
+    if isinstance(e, ast.BoolOp) and isinstance(e.op, ast.And):
+        return [c for v in e.values for c in conjuncts(v)]
+    return [e]
+
+
+def tests_matching(ctx: Ctx, f: FuncInfo, texts) -> List[Node]:
+    """test steps of f (or of a helper spliced into it) one of whose conjuncts reads - with locals, module constants and
+    helper parameters resolved - like one of `texts`"""
+    out = []
+    for t in ctx.nodes(f, lambda n: n.op == "test"):
+        if any(ctx.vals.canon_at(t.func, t.env, c).replace(" ", "") in texts for c in conjuncts(t.ast)):
+            out.append(t)
+    return out
+
+
+class DictDefault:
+    def __init__(self, node: Node, key, value: ast.AST):
+        self.node, self.key, self.value = node, key, value
+
+
+def dict_defaults(ctx: Ctx, f: FuncInfo) -> Dict[object, DictDefault]:
+    """`D.setdefault(K, V)` and its spelled-out form `if K not in D: D[K] = V`, by constant key K (all frames of f's CFG)"""
+    out: Dict[object, DictDefault] = {}
+    for n in ctx.distinct_sites(ctx.nodes(f, lambda n: n.op == "call" and isinstance(n.ast.func, ast.Attribute) and n.ast.func.attr == "setdefault" and len(n.ast.args) == 2
+                                          and isinstance(n.ast.args[0], ast.Constant))):
+        out[n.ast.args[0].value] = DictDefault(n, n.ast.args[0].value, n.ast.args[1])
+    for n in ctx.distinct_sites(ctx.nodes(f, lambda n: n.op == "assign" and isinstance(n.ast, ast.Assign) and len(n.ast.targets) == 1 and isinstance(n.ast.targets[0], ast.Subscript)
+                                          and isinstance(n.ast.targets[0].slice, ast.Constant))):
+        tgt = n.ast.targets[0]
+        key, dtxt = tgt.slice.value, ast.unparse(tgt.value)
+        # guarded by `K not in D` (as a conjunct of an enclosing if / elif in the same function)
+        guarded = False
+        for st in ast.walk(n.func.node):
+            if isinstance(st, ast.If) and any(x is n.ast for b in st.body for x in ast.walk(b)):
+                for c in conjuncts(st.test):
+                    if isinstance(c, ast.Compare) and len(c.ops) == 1 and isinstance(c.ops[0], ast.NotIn) and isinstance(c.left, ast.Constant) and c.left.value == key \
+                            and ast.unparse(c.comparators[0]) == dtxt:
+                        guarded = True
+        if guarded and key not in out:
+            out[key] = DictDefault(n, key, n.ast.value)
+    return out
 
 
 def r_arg_mapping(ctx: Ctx, rule: str):
@@ -681,34 +856,40 @@ def r_arg_mapping(ctx: Ctx, rule: str):
     pp = f.param_names()[1]
     src = ast.unparse(f.node).replace(" ", "")
     g = ctx.an.cfg(f)
-    tests = ctx.nodes(f, lambda n: n.op == "test")
-
-    def find_test(pred) -> List[Node]:
-        return [t for t in tests if pred(ast.unparse(t.ast).replace(" ", ""))]
-
-    t_def = find_test(lambda s: s in (f"{pp}.defaultisParameter.empty", f"{pp}.default==Parameter.empty", f"{pp}.defaultisnotParameter.empty"))
+    V = ctx.vals
+    t_def = tests_matching(ctx, f, (f"{pp}.defaultisParameter.empty", f"{pp}.default==Parameter.empty", f"{pp}.defaultisnotParameter.empty"))
     rep.ob(rule, "whether an argument is positional or an option is decided by the presence of a default", bool(t_def), func=f, construct=t_def[0] if t_def else "(no test of parameter.default)")
-    t_bool = find_test(lambda s: s in (f"{pp}.annotationisbool", f"{pp}.annotation==bool", f"{pp}.annotationin(bool,'bool')", f"{pp}.annotationin('bool',bool)"))
+    t_bool = tests_matching(ctx, f, (f"{pp}.annotationisbool", f"{pp}.annotation==bool", f"{pp}.annotationin(bool,'bool')", f"{pp}.annotationin('bool',bool)"))
     rep.ob(rule, "boolean parameters become flags", bool(t_bool), func=f, construct=t_bool[0] if t_bool else "(no bool test)")
-    t_var = find_test(lambda s: s in (f"{pp}.kind==Parameter.VAR_POSITIONAL", f"{pp}.kindisParameter.VAR_POSITIONAL"))
+    t_var = tests_matching(ctx, f, (f"{pp}.kind==Parameter.VAR_POSITIONAL", f"{pp}.kindisParameter.VAR_POSITIONAL"))
     rep.ob(rule, "*args parameters accept any number of values", bool(t_var), func=f, construct=t_var[0] if t_var else "(no VAR_POSITIONAL test)")
-    sets = {}
-    for n in ctx.distinct_sites(ctx.nodes(f, lambda n: n.op == "call" and isinstance(n.ast.func, ast.Attribute) and n.ast.func.attr == "setdefault" and len(n.ast.args) == 2
-                                          and isinstance(n.ast.args[0], ast.Constant))):
-        sets[n.ast.args[0].value] = n
-    rep.ob(rule, "flags use action='store_true'", "action" in sets and isinstance(sets["action"].ast.args[1], ast.Constant) and sets["action"].ast.args[1].value == "store_true", func=f,
-           construct=sets.get("action") or "(no action)")
-    rep.ob(rule, "options default to the method's own default value", "default" in sets and ast.unparse(sets["default"].ast.args[1]).replace(" ", "") == f"{pp}.default", func=f,
-           construct=sets.get("default") or "(no default)")
-    rep.ob(rule, "*args uses nargs='*'", "nargs" in sets and isinstance(sets["nargs"].ast.args[1], ast.Constant) and sets["nargs"].ast.args[1].value == "*", func=f,
-           construct=sets.get("nargs") or "(no nargs)")
+    sets = dict_defaults(ctx, f)
+
+    def val_txt(d: DictDefault) -> str:
+        return V.canon_at(d.node.func, d.node.env, d.value).replace(" ", "")
+
+    rep.ob(rule, "flags use action='store_true'", "action" in sets and val_txt(sets["action"]) == "'store_true'", func=f,
+           construct=sets["action"].node if "action" in sets else "(no action)")
+    rep.ob(rule, "options default to the method's own default value", "default" in sets and val_txt(sets["default"]) == f"{pp}.default", func=f,
+           construct=sets["default"].node if "default" in sets else "(no default)")
+    rep.ob(rule, "*args uses nargs='*'", "nargs" in sets and val_txt(sets["nargs"]) == "'*'", func=f,
+           construct=sets["nargs"].node if "nargs" in sets else "(no nargs)")
     if t_bool and "action" in sets and "default" in sets:
         for cp_ in [x for x in g.nodes if x.ast is t_bool[0].ast and x.op == "test" and x.pred]:
-            tb = reach([s for s, lab in cp_.succ if lab[0] == "T"], lambda a, b, lab: lab[0] in NORMAL_KINDS, avoid={x for x in g.nodes if x.op == "test" and x is not cp_ and False})
+            tb = reach([s for s, lab in cp_.succ if lab[0] == "T"], lambda a, b, lab: lab[0] in NORMAL_KINDS)
             rep.ob(rule, "store_true is chosen exactly for bool parameters and the default for all others",
-                   any(m.ast is sets["action"].ast for m in tb) and any(m.ast is sets["default"].ast for m in reach([s for s, lab in cp_.succ if lab[0] == "F"], lambda a, b, lab: lab[0] in NORMAL_KINDS)), node=cp_)
-    # long option name
-    rep.ob(rule, "option names are the parameter names with dashes", ("--{" + pp + ".name.replace('_','-')}") in src or ("'--'+" + pp + ".name.replace('_','-')") in src, func=f, construct="long option name")
+                   any(m.ast is sets["action"].node.ast for m in tb) and any(m.ast is sets["default"].node.ast for m in reach([s for s, lab in cp_.succ if lab[0] == "F"], lambda a, b, lab: lab[0] in NORMAL_KINDS)), node=cp_)
+    # long option name: '--' + <parameter name>.replace('_', '-'), in this function or in a helper it hands the name to
+    def long_name_in(fr: FuncInfo, nm_txt: str) -> bool:
+        t = ast.unparse(fr.node).replace(" ", "")
+        return ("--{" + nm_txt + ".replace('_','-')}") in t or ("'--'+" + nm_txt + ".replace('_','-')") in t
+
+    ok_long = long_name_in(f, pp + ".name")
+    for c in ctx.distinct_sites(ctx.nodes(f, lambda n: n.inlined is not None and n.benv is not None and n.op == "call")):
+        for pn, (caller, arg, cenv) in c.benv.items():
+            if V.canon_at(caller, cenv, arg).replace(" ", "") == pp + ".name" and long_name_in(c.inlined, pn):
+                ok_long = True
+    rep.ob(rule, "option names are the parameter names with dashes", ok_long, func=f, construct="long option name")
     # positional name
     rep.ob(rule, "positional arguments are stored under the parameter's own name", f"[{pp}.name]" in src, func=f, construct="positional name")
     adds = ctx.distinct_sites(ctx.nodes(f, lambda n: n.op == "call" and isinstance(n.ast.func, ast.Attribute) and n.ast.func.attr == "add_argument"))
@@ -789,33 +970,34 @@ def r_handshake(ctx: Ctx, rule: str):
         rep.ob(rule, "the commands are generated from the run-time class of the served pool (subclasses included)", txt in ("self._pool.__class__", "type(self._pool)"), node=c, detail=txt)
         extra = [k.arg for k in c.ast.keywords] + [1 for _ in c.ast.args[1:]]
         rep.ob(rule, "the session keeps add_class_commands' defaults (public members only, stored under CMD)", not extra, node=c, detail=str(extra))
-        rep.ob(rule, "the commands are added to this session's parser", P.of(c.ast.func.value) == "self._parser", node=c)
+        rep.ob(rule, "the commands are added to this session's parser", ctx.path_at(c, c.ast.func.value) == "self._parser", node=c)
     for w in ctx.distinct_sites(steps["write"]):
         a = w.ast.args[0] if w.ast.args else None
         txt = ast.unparse(a).replace(" ", "") if a is not None else ""
         ok = txt in ("str(self._pool).encode()+b'\\n'", "(str(self._pool)+'\\n').encode()", "f'{self._pool}\\n'.encode()")
         rep.ob(rule, "the reply to the handshake is the pool's name and a newline", ok, node=w, detail=txt)
+    V = ctx.vals
     for c in ctx.distinct_sites(steps["ctor"]):
-        sc = ctx.an.scope(f)
         width = next((k.value for k in c.ast.keywords if k.arg == "terminal_width"), None)
         if width is None:
             for k in c.ast.keywords:
-                if k.arg is None and isinstance(k.value, ast.Name):
-                    for h in sc.defs.get(k.value.id, []):
-                        d = h[1] if h[0] == "assign" else None
-                        if isinstance(d, ast.Dict):
-                            for kk, vv in zip(d.keys, d.values):
-                                if ast.unparse(kk).replace(" ", "") in ("CLIENT_INFO.TERMINAL_WIDTH", "'terminal_width'"):
-                                    width = vv
-        if isinstance(width, ast.Name) and len(sc.defs.get(width.id, [])) == 1 and sc.defs[width.id][0][0] == "assign":
-            width = sc.defs[width.id][0][1]
-        ok = width is not None and isinstance(width, ast.Subscript) and isinstance(width.value, ast.Name)
-        if ok:
-            src = [h[1] for h in sc.defs.get(width.value.id, []) if h[0] == "assign"]
-            ok = bool(src) and all(isinstance(s, ast.Call) and ctx.an.scope(f).callee(s).name == "json.loads" for s in src)
+                if k.arg is None:
+                    d = V.resolve(c.func, k.value)
+                    if isinstance(d, ast.Dict):
+                        for kk, vv in zip(d.keys, d.values):
+                            if kk is not None and ast.unparse(kk).replace(" ", "") in ("CLIENT_INFO.TERMINAL_WIDTH", "'terminal_width'"):
+                                width = vv
+        ok = False
+        if width is not None:
+            # followed through locals and through the parameters of helpers spliced into the handshake
+            fr, fenv, width = V.trace(c.func, c.env, width)
+            ok = isinstance(width, ast.Subscript)
+            if ok:
+                src = V.trace(fr, fenv, width.value)
+                ok = isinstance(src[2], ast.Call) and ctx.an.scope(src[0]).callee(src[2]).name == "json.loads"
         rep.ob(rule, "the parser formats for the terminal width the client announced", ok, node=c, detail=ast.unparse(width) if width is not None else "")
         st = [n for n in ctx.nodes(f, lambda n: n.op == "assign" and any(e.path == "self._parser" for e in ctx.eff.of_node(n)))]
-        rep.ob(rule, "the parser built is the one the session will use", any(n.ast.value is c.ast for n in st), node=c)
+        rep.ob(rule, "the parser built is the one the session will use", any(getattr(n.ast, "value", None) is not None and V.resolve(n.func, n.ast.value) is c.ast for n in st), node=c)
 
 
 def r_surface(ctx: Ctx, rule: str):
@@ -828,11 +1010,29 @@ def r_surface(ctx: Ctx, rule: str):
         raise AnalysisError("anchor: ControlParser.add_class_commands missing")
     sc = ctx.an.scope(f)
     g = ctx.an.cfg(f)
+    from ..cfg import bind_args
+
     loops = [n for n in ast.walk(f.node) if isinstance(n, ast.For)]
-    lp = next((l for l in loops if ast.unparse(l.iter).replace(" ", "") in ("getmembers(cls)", "inspect.getmembers(cls)")), None)
+    GM = ("getmembers(cls)", "inspect.getmembers(cls)")
+    lp = next((l for l in loops if ast.unparse(l.iter).replace(" ", "") in GM), None)
+    src_lp, src_fn, src_env = lp, f, None  # the loop over getmembers: here, or in a generator function this loop draws from
+    if lp is None:
+        for l in loops:
+            cal = sc.callee(l.iter) if isinstance(l.iter, ast.Call) else None
+            if cal is not None and cal.kind == "pkg" and len(cal.targets) == 1 and any(isinstance(x, (ast.Yield, ast.YieldFrom)) for x in ast.walk(cal.targets[0].node)):
+                gfn = cal.targets[0]
+                genv = bind_args(l.iter, gfn, f, None)
+                for gl in [x for x in ast.walk(gfn.node) if isinstance(x, ast.For)]:
+                    if ctx.vals.canon_at(gfn, genv, gl.iter).replace(" ", "") in GM:
+                        ys = [y for y in ast.walk(gl) if isinstance(y, ast.Yield)]
+                        # it yields exactly the (name, member) pairs it iterates over
+                        if ys and all(y.value is not None and ast.unparse(y.value) == ast.unparse(gl.target) or
+                                      (isinstance(y.value, ast.Tuple) and isinstance(gl.target, ast.Tuple) and [ast.unparse(e) for e in y.value.elts] == [ast.unparse(e) for e in gl.target.elts])
+                                      for y in ys):
+                            lp, src_lp, src_fn, src_env = l, gl, gfn, genv
     rep.ob(rule, "every member of the class is considered (getmembers)", lp is not None, func=f, construct=loops[0] if loops else "(no loop)")
     if lp is not None:
-        early = [n for n in ast.walk(lp) if isinstance(n, (ast.Break, ast.Return))]
+        early = [n for n in ast.walk(lp) if isinstance(n, (ast.Break, ast.Return))] + ([n for n in ast.walk(src_lp) if isinstance(n, (ast.Break, ast.Return))] if src_lp is not lp else [])
         rep.ob(rule, "the enumeration does not stop early (a member that is neither a function nor a property is skipped, not the rest of the class)", not early, func=f,
                construct=early[0] if early else "no break/return in the members loop")
     d = f.param_default("public_only")
@@ -843,16 +1043,18 @@ def r_surface(ctx: Ctx, rule: str):
     rep.ob(rule, "no member is omitted by default", d is not None and ast.unparse(d) in ("()", "[]", "set()", "frozenset()"), func=f, construct=f"omit_members={ast.unparse(d) if d is not None else None}")
     if lp is not None and isinstance(lp.target, ast.Tuple) and len(lp.target.elts) == 2:
         nv, mv = lp.target.elts[0].id, lp.target.elts[1].id
-        skip = [n for n in lp.body if isinstance(n, ast.If) and any(isinstance(x, ast.Continue) for x in n.body)]
-        ok = False
-        for s in skip:
-            t = s.test
-            if isinstance(t, ast.BoolOp) and isinstance(t.op, ast.Or) and len(t.values) == 2:
-                a, b = t.values
-                t1 = ast.unparse(a).replace(" ", "") == f"{nv}inomit_members"
-                t2 = isinstance(b, ast.BoolOp) and isinstance(b.op, ast.And) and sorted(ast.unparse(x).replace(" ", "") for x in b.values) == sorted([f"{nv}.startswith('_')", "public_only"])
-                ok = ok or (t1 and t2)
-        rep.ob(rule, "exactly the members whose name starts with '_' are hidden (when public_only) besides explicit omissions", ok, func=f, construct=skip[0].test if skip else "(no skip test)")
+        snv = src_lp.target.elts[0].id if isinstance(src_lp.target, ast.Tuple) and src_lp.target.elts and isinstance(src_lp.target.elts[0], ast.Name) else nv
+        # the skip conditions of the members loop: one `if A or (B and C): continue` or several `if ...: continue` in a row
+        skip = [n for n in src_lp.body if isinstance(n, ast.If) and not n.orelse and n.body and isinstance(n.body[-1], ast.Continue) and len(n.body) == 1]
+        conds = set()
+        for s_ in skip:
+            disj = s_.test.values if isinstance(s_.test, ast.BoolOp) and isinstance(s_.test.op, ast.Or) else [s_.test]
+            for d_ in disj:
+                conds.add(tuple(sorted(ctx.vals.canon_at(src_fn, src_env, c_).replace(" ", "") for c_ in conjuncts(d_))))
+        want = {(f"{snv}inomit_members",), tuple(sorted([f"{snv}.startswith('_')", "public_only"]))}
+        ok = conds == want
+        rep.ob(rule, "exactly the members whose name starts with '_' are hidden (when public_only) besides explicit omissions", ok, func=f, construct=skip[0].test if skip else "(no skip test)",
+               detail=str(sorted(conds)))
         fc = ctx.distinct_sites(ctx.nodes(f, lambda n: ctx.is_call_to(n, "add_function_command")))
         pc = ctx.distinct_sites(ctx.nodes(f, lambda n: ctx.is_call_to(n, "add_property_command")))
         for c in fc:
@@ -878,8 +1080,9 @@ def r_surface(ctx: Ctx, rule: str):
         m = cp.methods.get(nm)
         if m is None:
             continue
-        src = ast.unparse(m.node).replace(" ", "")
-        rep.ob(rule, f"{nm} names the command after the member with underscores as dashes", f".setdefault('name',{attr})" in src, func=m, construct="command name")
+        dd = dict_defaults(ctx, m)
+        ok = "name" in dd and ctx.vals.canon_at(dd["name"].node.func, dd["name"].node.env, dd["name"].value).replace(" ", "") == attr
+        rep.ob(rule, f"{nm} names the command after the member with underscores as dashes", ok, func=m, construct="command name")
     # help stays enabled
     bad = []
     for fn in ctx.prog.all_functions():
